@@ -298,14 +298,14 @@ package main
 
 //@ func loadDebugArtifactsForPkg
 //@   property C07
-//@   hooks cachemiss
+//@   hooks cachemiss dbgkey
 //@   assigns ghost lastGetErr, ghost merged, ghost anyErr
 //@   ensures @unreadable-entry-is-a-miss-not-an-error: lastGetErr ==> !r1 && r2 == nil
 //@ end
 
 //@ func debugArtifactsExistForPkg
 //@   property C07
-//@   hooks cachemiss
+//@   hooks cachemiss dbgkey
 //@   ensures @exists-iff-readable: r0 <==> !lastGetErr
 //@ end
 
@@ -425,16 +425,32 @@ package main
 //@   ensures @may-only-grows: forall q string :: old(may[q]) ==> may[q]
 //@ end
 
+//@ ghost gfTested int
+//@ ghost gfBad bool
+
+//@ hookset garbleflags
+//@ hook before (*regexp.Regexp).MatchString(re, str)
+//@   assert("[C20] every-argument-before-the-packages-is-tested-as-a-whole-against-the-garble-flag-pattern", re == rxGarbleFlag && gfTested < len(flags) && str == flags[gfTested])
+//@ hook after (*regexp.Regexp).MatchString(re, str) (r)
+//@   gfTested = gfTested + 1
+//@   if r { gfBad = true }
+//@ hook before mvdan.cc/garble.newListedPackages()
+//@   assert("[C20] no-argument-before-the-packages-escapes-the-garble-flag-test", gfTested == len(flags) && !gfBad)
+//@ end
+
 //@ func toolexecCmd
 //@   property C19 C18 C20 C02 C14
-//@   hooks fs
-//@   requires !anySelected && !dbgMade && !dbgMarked
+//@   hooks fs garbleflags
+//@   requires !anySelected && !dbgMade && !dbgMarked && !dbgMissing && gfTested == 0 && !gfBad
 //@   spec goflags.smt2
 //@   maxpaths 4000
 //@   assigns *, ghost may, ghost marker, ghost envShared, ghost dirOf, ghost tempMade, ghost tempDir, ghost removed, ghost dbgMade, ghost dbgMarked
 //@   ensures @env-names-only-an-owned-dir: envShared == "" || may[envShared]
 //@   ensures @temp-dir-is-always-handed-to-the-cleanup: tempMade && !old(tempMade) ==> envShared == tempDir
 //@   ensures @at-most-one-temp-dir: !tempMade ==> envShared == ""
+//@   ensures @a-garble-flag-after-the-command-is-rejected: [C20] gfBad ==> r1 != nil
+//@   loop 0
+//@     invariant @flags-are-tested-one-by-one-in-order: [C20] gfTested == _i && !gfBad
 //@   ensures @debug-dir-carries-its-ownership-marker-before-the-build-starts: [C18,C19] r1 == nil && dbgMade ==> dbgMarked
 //@ end
 
@@ -455,7 +471,7 @@ package main
 //@   property C19 C17 C10
 //@   hooks fs linkrun linker
 //@   maxpaths 4000
-//@   requires !lockHeld && !everLocked && unlocks == 0 && !built && !stamped && !linkPatched && !anySelected && !dbgMade && !dbgMarked && !revWasCall
+//@   requires !lockHeld && !everLocked && unlocks == 0 && !built && !stamped && !linkPatched && !anySelected && !dbgMade && !dbgMarked && !revWasCall && !dbgMissing && gfTested == 0 && !gfBad
 //@   ensures @lock-released-once-after-the-link: linkPatched ==> !lockHeld && unlocks == 1
 //@   ensures @no-lock-leak: !lockHeld
 //@   ensures @temp-dir-removed-on-every-exit: [C19] tempMade && !old(tempMade) ==> removed[tempDir]
@@ -681,7 +697,7 @@ package main
 //@   hooks revstream revkey fs
 //@   maxpaths 4000
 //@   skip safety
-//@   requires !anySelected && !dbgMade && !dbgMarked && !revWasCall
+//@   requires !anySelected && !dbgMade && !dbgMarked && !revWasCall && !dbgMissing && gfTested == 0 && !gfBad
 //@   unclaimed hashWithPackage/requires because the names come from go list output and from parsed declarations; that those are non-empty is an invariant of go/parser and cmd/go, not of this function
 //@   unclaimed hashWithStruct/requires because the field objects come from go/types and the content ID from the shared cache written by the parent process
 //@   case_calls *ast.FuncDecl: addHashedWithPackage
@@ -943,7 +959,7 @@ package main
 //@   property C13 C19
 //@   hooks mapnames parse fs
 //@   maxpaths 4000
-//@   requires !anySelected && !dbgMade && !dbgMarked
+//@   requires !anySelected && !dbgMade && !dbgMarked && !dbgMissing && gfTested == 0 && !gfBad
 //@   skip safety
 //@   unclaimed obfuscatedObjectName/requires because the transformer and its package are non-nil whenever transformerForListedPackage reports no error; the remaining precondition is about go/types
 //@   unclaimed obfuscatedImportPath/requires because import paths of listed packages are non-empty by construction of go list
@@ -1533,4 +1549,60 @@ package main
 //@   maxpaths 6000
 //@   may_panic when true
 //@   ensures @linker-variables-are-known-whenever-literals-are-obfuscated: [C05,C09] r1 == nil && flagLiterals ==> tcLinkerVars
+//@ end
+
+// ---- C19/C06/C07: the -debugdir artifacts kept in the cache ----
+
+//@ hookset dbgkey
+//@ hook before mvdan.cc/garble.debugArtifactsCacheID(id, k)
+//@   assert("[C06,C07,C19] debug-artifacts-are-keyed-by-the-garble-action-id-of-the-package-and-the-kind", str(id[:]) == str(lpkg.GarbleActionID[:]) && k == kind)
+//@ end
+
+//@ func (cachedDebugArtifacts).empty
+//@   pure
+//@   trusted both maps are empty
+
+//@ func saveDebugArtifactsForPkg
+//@   property C19 C06
+//@   hooks dbgkey
+//@   requires lpkg != nil
+//@   skip safety call-requires
+//@ end
+
+//@ ghost dbgLast *listedPackage
+//@ ghost dbgCompileDone bool
+//@ ghost dbgMissing bool
+
+//@ hookset dbgrestore
+//@ hook before mvdan.cc/garble.restoreDebugArtifactsForPkg(c, lp, k)
+//@   assert("every-listed-package-with-an-action-id-is-restored", lp == lpkg && len(lp.GarbleActionID) != 0)
+//@   if k == debugCacheKindAsm { assert("compiled-and-assembly-artifacts-are-both-restored", dbgCompileDone && dbgLast == lp) }
+//@   if k == debugCacheKindCompile { dbgLast = lp }
+//@   if k == debugCacheKindCompile { dbgCompileDone = true }
+//@   assert("only-the-two-artifact-kinds-exist", k == debugCacheKindCompile || k == debugCacheKindAsm)
+//@ end
+
+//@ func restoreDebugDirFromCache
+//@   property C19
+//@   hooks dbgrestore
+//@   skip safety call-requires
+//@   loop 1
+//@     iter dbgCompileDone = false
+//@ end
+
+//@ hookset dbgneeds
+//@ hook before mvdan.cc/garble.debugArtifactsExistForPkg(c, lp, k)
+//@   assert("artifacts-are-looked-up-for-the-package-and-kind-that-has-inputs", lp == lpkg && ((k == debugCacheKindCompile && len(lp.CompiledGoFiles) > 0) || (k == debugCacheKindAsm && len(lp.SFiles) > 0)))
+//@ hook after mvdan.cc/garble.debugArtifactsExistForPkg(c, lp, k) (r)
+//@   if !r { dbgMissing = true }
+//@ end
+
+//@ func debugDirNeedsRebuild
+//@   property C19
+//@   hooks dbgneeds
+//@   requires !dbgMissing
+//@   skip safety call-requires
+//@   ensures @a-missing-artifact-forces-a-full-rebuild: r1 == nil && dbgMissing ==> r0
+//@   loop 0
+//@     invariant dbgMissing ==> missingArtifacts && sawBuildInputs
 //@ end
